@@ -27,6 +27,7 @@ where
 {
     pub pos: u64,
     pub start: u64,
+    pub finished: bool,
     pub key: &'a K,
     pub data: &'a Data,
     pub storage: &'a Storage<D>,
@@ -43,7 +44,7 @@ where
     type Item = Result<(K, T), DbError>;
 
     fn next(&mut self) -> Option<Self::Item> {
-        if self.data.capacity() == 0 {
+        if self.data.capacity() == 0 || self.finished {
             return None;
         }
 
@@ -56,9 +57,16 @@ where
                 self.pos + 1
             };
 
+            // Once the position wraps around to the start every slot
+            // has been visited, even if the last one yields a value.
+            self.finished = self.start == self.pos;
+
             match self.data.state(self.storage, current_pos) {
                 Err(error) => return Some(Err(error)),
-                Ok(MapValueState::Empty) => break,
+                Ok(MapValueState::Empty) => {
+                    self.finished = true;
+                    break;
+                }
                 Ok(MapValueState::Deleted) => {}
                 Ok(MapValueState::Valid) => {
                     let key = match self.data.key(self.storage, current_pos) {
@@ -76,7 +84,7 @@ where
                 }
             }
 
-            if self.start == self.pos {
+            if self.finished {
                 break;
             }
         }
@@ -140,8 +148,10 @@ where
 
         let hash = key.stable_hash();
         let mut pos = hash % self.capacity();
+        let start_pos = pos;
         let mut free_pos = None;
         let mut ret = None;
+        let mut full_cycle = false;
 
         loop {
             match self.data.state(storage, pos)? {
@@ -166,11 +176,20 @@ where
                 MapValueState::Valid => {}
             }
 
-            pos = self.next_pos(pos)
+            pos = self.next_pos(pos);
+
+            if pos == start_pos {
+                full_cycle = true;
+                break;
+            }
         }
 
         if let Some(pos) = free_pos {
             self.do_insert(storage, pos, key, new_value)?;
+        }
+
+        if full_cycle {
+            self.rehash_in_place(storage)?;
         }
 
         self.data.commit(storage, id)?;
@@ -204,6 +223,7 @@ where
         MultiMapIterator {
             pos,
             start: pos,
+            finished: false,
             key,
             data: &self.data,
             storage,
@@ -241,7 +261,7 @@ where
 
             if pos == start_pos {
                 if len == self.len() {
-                    self.rehash(storage, self.capacity())?;
+                    self.rehash_in_place(storage)?;
                 }
                 break;
             }
@@ -287,7 +307,7 @@ where
             }
 
             if pos == start_pos {
-                self.rehash(storage, self.capacity())?;
+                self.rehash_in_place(storage)?;
                 break;
             }
         }
@@ -402,6 +422,15 @@ where
             std::cmp::Ordering::Greater => self.shrink(storage, current_capacity, new_capacity),
             std::cmp::Ordering::Equal => Ok(()),
         }
+    }
+
+    // Probing found no empty slot in a full cycle, i.e. every free
+    // slot is a deleted one. Rehashing the values at the current
+    // capacity turns the deleted slots back into empty ones so that
+    // subsequent probing stops early again.
+    fn rehash_in_place(&mut self, storage: &mut Storage<D>) -> Result<(), DbError> {
+        let capacity = self.capacity();
+        self.rehash_values(storage, capacity, capacity)
     }
 
     fn rehash_deleted(
@@ -891,6 +920,83 @@ mod tests {
         assert!(map.len() < map.max_len());
         assert_eq!(map.max_len(), 240);
         assert_eq!(map.value(&storage, &10_000).unwrap(), None);
+    }
+
+    #[test]
+    fn insert_or_replace_without_empty_slot() {
+        let mut storage: Storage<MemoryStorage> = Storage::new("test").unwrap();
+        let mut map = MultiMapStorage::<u64, u64, MemoryStorage>::new(&mut storage).unwrap();
+
+        map.insert(&mut storage, &1000, &1).unwrap();
+
+        for i in 0..64_u64 {
+            map.insert_or_replace(&mut storage, &i, |_| true, &i)
+                .unwrap();
+            map.remove_key(&mut storage, &i).unwrap();
+        }
+
+        assert_eq!(map.capacity(), 64);
+        assert_eq!(map.len(), 1);
+
+        map.insert_or_replace(&mut storage, &100, |_| true, &100)
+            .unwrap();
+        map.insert_or_replace(&mut storage, &1000, |v| *v == 2, &3)
+            .unwrap();
+
+        assert_eq!(map.len(), 3);
+        assert_eq!(map.value(&storage, &100).unwrap(), Some(100));
+        assert_eq!(map.values(&storage, &1000).unwrap(), vec![1, 3]);
+        assert_eq!(map.value(&storage, &5).unwrap(), None);
+    }
+
+    #[test]
+    fn remove_without_empty_slot_reclaims_deleted() {
+        let mut storage: Storage<MemoryStorage> = Storage::new("test").unwrap();
+        let mut map = MultiMapStorage::<u64, u64, MemoryStorage>::new(&mut storage).unwrap();
+
+        map.insert(&mut storage, &1000, &1).unwrap();
+
+        for i in 0..64_u64 {
+            map.insert(&mut storage, &i, &i).unwrap();
+            map.remove_value(&mut storage, &i, &i).unwrap();
+        }
+
+        map.remove_key(&mut storage, &2000).unwrap();
+        assert_eq!(map.iter_key(&storage, &3).count(), 0);
+        assert_eq!(map.value(&storage, &1000).unwrap(), Some(1));
+
+        for i in 0..64_u64 {
+            map.insert(&mut storage, &i, &i).unwrap();
+            map.remove_value(&mut storage, &i, &i).unwrap();
+        }
+
+        map.remove_value(&mut storage, &2000, &1).unwrap();
+        assert_eq!(map.len(), 1);
+        assert_eq!(map.value(&storage, &1000).unwrap(), Some(1));
+    }
+
+    #[test]
+    fn iter_key_stops_after_value_in_last_slot() {
+        let mut storage: Storage<MemoryStorage> = Storage::new("test").unwrap();
+        let mut map = MultiMapStorage::<u64, u64, MemoryStorage>::new(&mut storage).unwrap();
+
+        for i in 0..63_u64 {
+            map.insert(&mut storage, &i, &i).unwrap();
+            map.remove_value(&mut storage, &i, &i).unwrap();
+        }
+
+        // no empty slot is left and the value ends up
+        // in the slot just before the key's first slot
+        map.insert_or_replace(&mut storage, &0, |_| false, &7)
+            .unwrap();
+
+        assert_eq!(map.capacity(), 64);
+        assert_eq!(map.iter_key(&storage, &0).take(10).count(), 1);
+        assert_eq!(map.values(&storage, &0).unwrap(), vec![7]);
+
+        let mut iter = map.iter_key(&storage, &1);
+        assert!(iter.next().is_none());
+        assert!(iter.next().is_none());
     }
 
     #[test]
